@@ -106,6 +106,17 @@ func probe() {
 			req: reqSpec{csr: csrSpec{form: "ok", key: "ec256-a"}, ttl: 600, imp: "s:" + wire.Enc("spiffe://cluster.local/ns/a/sa/b"), signer: "-", cluster: "c1"}}
 		emit(a.line()...)
 	}
+	// 1a''. the gate must judge exactly the string that is issued: decorated spellings of the on-node identity
+	header("decorated-impersonation")
+	emit("ca", "plug", "86400", "86400", "1", "3600", "86400")
+	emit(na...)
+	for _, imp := range []string{"spiffe://cluster.local/ns/a/sa/b ", " spiffe://cluster.local/ns/a/sa/b", "spiffe://cluster.local/ns/a/sa/b/",
+		"SPIFFE://cluster.local/ns/a/sa/b", "spiffe://cluster.local/NS/a/sa/b", "spiffe://cluster.local/ns/a/sa/%2E%2E/sa/b", "spiffe://cluster.local/ns/a/sa/b\t",
+		"spiffe://cluster.local//ns/a/sa/b", "spiffe://cluster.local/ns/a/sa/b%20", "spiffe://cluster.local/ns/a/sa/b\n", "spiffe://cluster.local/ns/a/sa/b"} {
+		r := base()
+		r.imp = "s:" + wire.Enc(imp)
+		emit(r.line()...)
+	}
 	// 1a'. a pod world that changes between requests (private world): delete / add / re-create pods,
 	// Succeeded and Pending pods (they pass the informer's selector), a cluster update whose new
 	// authorizer has not synced (the old one answers), its sync, a second update before the first synced
@@ -252,6 +263,24 @@ func probe() {
 		r.outs = []authOutcome{{kind: "ok", ids: ids}}
 		emit(r.line()...)
 	}
+	// 2b. finding (fixed by 197ddc2): an authenticated SPIFFE identity with an upper-case scheme was issued as a DNS SAN
+	header("upper-case-scheme")
+	emit("ca", "plug", "86400", "86400", "1", "3600", "86400")
+	emit("na", "-")
+	for _, ids := range [][]string{{"SPIFFE://td1/ns/a/sa/b"}, {"Spiffe://td1/ns/a/sa/b", "spiffe://td1/ns/a/sa/b"}, {"spiffe:/x", "SPIFFE:/"}} {
+		r := base()
+		r.outs = []authOutcome{{kind: "ok", ids: ids}}
+		emit(r.line()...)
+	}
+	{
+		upper := leafSpec{issuer: "R1", sans: []string{"U:SPIFFE://td1/ns/a/sa/b"}, when: "ok", eku: "both"}
+		a := reqaSpec{spec: []string{"tlscert", "grpc", wire.EncList([]string{"td1=R1"}), upper.tok(), "-"},
+			req: reqSpec{csr: csrSpec{form: "ok", key: "ec256-a"}, ttl: 600, imp: "-", signer: "-", cluster: "-"}}
+		emit(a.line()...)
+		hx := "URI=SPIFFE://cluster.local/ns/a/sa/b"
+		a.spec = []string{"xfcc", "grpc", wire.Enc("10.0.0.0/8"), wire.Enc("10.1.2.3:555"), wire.EncList([]string{hx}), parsedXFCCAll([]string{hx})}
+		emit(a.line()...)
+	}
 	// 3. the CSR asks for everything; the certificate carries only the authenticated identity
 	header("adversarial-csr")
 	emit("ca", "plug2", "7200", "7200,"+fmt.Sprint(int1Life), "1", "1800", "86400")
@@ -272,7 +301,7 @@ func probe() {
 	header("ttl")
 	emit("ca", "plug", "3600", "3600", "1", "1800", "86400")
 	emit("na", "-")
-	for _, ttl := range []int64{-5, 0, 1, 1800, 3600, 5400, 86400, 86401, (1 << 55) + 600, -(1 << 55) + 600, 1 << 62, 9223372036, 9223372037, -(1 << 63)} {
+	for _, ttl := range []int64{-5, 0, 1, 1800, 3600, 3601, 3630, 3719, 5400, 86400, 86401, (1 << 55) + 600, -(1 << 55) + 600, 1 << 62, 9223372036, 9223372037, -(1 << 63)} {
 		r := base()
 		r.ttl = ttl
 		emit(r.line()...)
@@ -392,6 +421,7 @@ func probeAuthn() {
 		emit("authn", "cert", tr, "tls", wire.EncList([]string{e("bad")}))
 		emit("authn", "cert", tr, "tls", "-")
 		emit("authn", "cert", tr, "tls", "~")
+		emit("authn", "cert", tr, "tlspeer", wire.EncList([]string{leaf})) // presented but unverified certificate
 		emit("authn", "cert", tr, "other", wire.EncList([]string{leaf}))
 		emit("authn", "cert", tr, "noauth", wire.EncList([]string{leaf}))
 		emit("authn", "cert", tr, "nopeer", wire.EncList([]string{leaf}))
@@ -429,6 +459,8 @@ func probeAuthn() {
 	emit("authn", "tlscert", "grpc", pools, lf("R1", "ok", "both"), "-")
 	emit("authn", "tlscert", "grpc", pools, lf("R1", "ok", "both", "U:spiffe://td1/x"), "-")
 	emit("authn", "tlscert", "grpc", pools, lf("R1", "ok", "both", "U:spiffe://td3/ns/a/sa/b"), "-")
+	emit("authn", "tlscert", "grpc", pools, lf("R1", "ok", "both", "U:SPIFFE://td1/ns/a/sa/b"), "-") // url.String() lower-cases the scheme
+	emit("authn", "tlscert", "grpc", pools, lf("R2", "ok", "both", "U:Spiffe://td1/ns/a/sa/b"), "-")
 	emit("authn", "tlscert", "grpc", pools, "nocert", "-")
 	emit("authn", "tlscert", "grpc", "-", lf("R1", "ok", "both", "U:spiffe://td1/ns/a/sa/b"), "-")
 	// kube JWT: cluster selection, token and audience binding, review outcomes, both transports
